@@ -31,6 +31,9 @@ Faults (set_fault / script / control endpoint), applied per table request:
     drop         connection closed without any reply
     truncate     status line + headers with Content-Length = len+50, 10 body bytes, then the connection is shut down
     http500      status 500 with a short text body
+    http503late  status 503, HTTP/1.1, NO Content-Length; a text body follows 0.3 s after the headers and the connection is kept open for
+                 2 s (a front-end / load balancer that streams its error page): a client that keeps one connection for all lookups
+                 finds the unread page at the head of its next reply
     empty        200 with Content-Length 0
     nonjson      200 with an HTML body
     nodurations  JSON without `durations`
@@ -57,7 +60,7 @@ Stand-alone:     osrm_stub.py --port P (--dataset file.txt | --tables file.json)
 import http.server, json, socket, sys, threading, time
 
 UNREACHABLE = 100000
-FAULTS = ["healthy", "refuse", "drop", "truncate", "http500", "empty", "nonjson", "nodurations", "nulls", "fewer"]
+FAULTS = ["healthy", "refuse", "drop", "truncate", "http500", "http503late", "empty", "nonjson", "nodurations", "nulls", "fewer"]
 UNLISTED_FAULTS = ["more", "shortdist"]
 STOP_LON = -73000000            # micro-degrees
 STOP_LAT0 = 45000000
@@ -245,6 +248,16 @@ class Stub:
             return
         if base == "http500":
             return self._send(h, 500, "Internal Server Error", "text/plain")
+        if base == "http503late":
+            h.send_response(503); h.send_header("Content-Type", "text/plain"); h.send_header("Connection", "keep-alive"); h.end_headers()
+            h.wfile.flush()
+            try:
+                time.sleep(0.3)
+                h.wfile.write(b"Service Unavailable: the walking router is restarting\n"); h.wfile.flush()
+                h.connection.settimeout(2.0)      # keep the connection open: a pooled client will send its next request on it
+            except OSError:
+                h.close_connection = True
+            return
         if base == "empty":
             return self._send(h, 200, b"")
         if base == "nonjson":
